@@ -51,7 +51,9 @@ def generate(rng, tier):
     out += [("c04-" + n, s) for n, s in C04.generate(rng, "quick")[: (4 if tier == "quick" else 12)]]
     c12 = C12.generate(rng, "quick")
     named = [x for x in c12 if any(" __eh_frame " in l for l in x[1].lines[:8])]      # DWARF-only images with the Mach-O section spelling
-    out += [("c12-" + n, s) for n, s in c12[: (2 if tier == "quick" else 6)] + [x for x in named[:1] if x not in c12[:2]]]
+    # sets with several CIEs of different pointer encodings (absolute, pc- / text- / data-relative), interleaved FDEs
+    pick = [c12[2], c12[5]] if tier == "quick" else c12[:7]
+    out += [("c12-" + n, s) for n, s in pick + [x for x in named[:1] if x not in pick]]
     # histories on shared caches (failing calls followed by succeeding ones at the same address, module changes)
     out += [("c06-" + n, s) for n, s in [x for x in C06.generate(rng, "quick") if x[0].startswith("hist-")][: (3 if tier == "quick" else 8)]]
     out += [("c20-" + n, s) for n, s in C20.generate(rng, "quick")[: (2 if tier == "quick" else 6)]]
